@@ -68,7 +68,7 @@ H(b)     == T.height[b]
 Cls(b)   == T.cls[b]
 Heavier(a, b) == T.heavier[a][b]
 ReqH     == T.requireH          \* v2 require height of the tree's network
-Eff(b)   == T.eff[b]            \* [creates, spends : sets; fcNew, fcRev, fcRes : sequences]
+Eff(b)   == T.eff[b]            \* [creates, spends : sequences of element ids; fc : sequence of contract diffs]
 Heights  == 0..T.maxH
 
 Tip == best[Len(best)]
@@ -138,10 +138,12 @@ RevertFC(l, ds, i) ==
       ELSE
           RevertFC([l EXCEPT !.fc = @ \cup {<<d.id, d.rev, d.end>>}, !.exp = ExpPre(@, d.id, d.end)], ds, i - 1)
 
+\* creates / spends arrive as sequences (JSON arrays)
+SeqSet(q) == {q[i] : i \in 1..Len(q)}
 ApplyEff(l, b) ==
-    LET e == Eff(b) l1 == [l EXCEPT !.utxo = (@ \ e.spends) \cup e.creates] IN ApplyFC(l1, e.fc, 1)
+    LET e == Eff(b) l1 == [l EXCEPT !.utxo = (@ \ SeqSet(e.spends)) \cup SeqSet(e.creates)] IN ApplyFC(l1, e.fc, 1)
 RevertEff(l, b) ==
-    LET e == Eff(b) l1 == RevertFC(l, e.fc, Len(e.fc)) IN [l1 EXCEPT !.utxo = (@ \ e.creates) \cup e.spends]
+    LET e == Eff(b) l1 == RevertFC(l, e.fc, Len(e.fc)) IN [l1 EXCEPT !.utxo = (@ \ SeqSet(e.creates)) \cup SeqSet(e.spends)]
 
 \* the fold of a chain as a node that only ever applied it linearly computes it
 RECURSIVE Fold(_, _)
